@@ -119,7 +119,7 @@ func (f *Func) LLString() string {
 	// Function definition.
 	//
 	//	'define' Header=FuncHeader Metadata=MetadataAttachment* Body=FuncBody
-	if err := f.AssignIDs(); err != nil {
+	if err := f.assignIDs(false); err != nil {
 		panic(fmt.Errorf("unable to assign IDs of function %q; %v", f.Ident(), err))
 	}
 	buf := &strings.Builder{}
@@ -149,14 +149,23 @@ func (f *Func) LLString() string {
 	}
 }
 
-// AssignIDs assigns IDs to unnamed local variables.
+// AssignIDs assigns IDs to unnamed local variables. An error is returned if an
+// unnamed local variable already has an ID other than the one implied by its
+// position (e.g. an explicit %7 in the input where %2 is expected).
 func (f *Func) AssignIDs() error {
+	return f.assignIDs(true)
+}
+
+// assignIDs assigns IDs to unnamed local variables. If validate is set,
+// previously assigned IDs must agree with the new ones; otherwise they are
+// replaced (the function may have been edited since it was last printed).
+func (f *Func) assignIDs(validate bool) error {
 	f.mu.Lock()
 	defer f.mu.Unlock()
 	id := int64(0)
 	setName := func(n namedVar) error {
 		if n.IsUnnamed() {
-			if n.ID() != 0 && id != n.ID() {
+			if validate && n.ID() != 0 && id != n.ID() {
 				want := id
 				got := n.ID()
 				return errors.Errorf("invalid local ID in function %q, expected %s, got %s", f.Ident(), enc.LocalID(want), enc.LocalID(got))
